@@ -4,6 +4,46 @@ import "verif/internal/eng"
 
 func init() {
 	register(&Property{
+		ID: "C33",
+		Explanation: "Decides effects and order of repair index: (no-pack-removal) the call closure of repository.RepairIndex (static callees, function literals, function values, interface calls resolved by class-hierarchy analysis over the module; calls on backend.Backend are the effect boundary) contains neither PrunePlan.Execute nor RepairPacks — the only pack removers by rule pack-removers —, every removal call with a constant file type in the closure names IndexFile, and the only direct backend Remove in it is the removeUnpacked wrapper; (repair-order) rewriteIndexFiles is reachable from the pack-reading step only through createIndexFromPacks' success edge and after successful listings; in createIndexFromPacks a pack's entries enter the index (StorePack) only on the success edge of listPack for that pack with the entries just listed — unreadable packs are never indexed — and success requires the workers and the flush to succeed; (rewrite-order) obsolete index files are removed only after all new ones were saved. Not decided: that the listed positions equal the true positions (C06) for every pack content.",
+		Assumptions: commonAssumptions,
+		Technique:   "static analysis: call-graph effect closure (CHA within the module, backend interface as boundary) + CFG edge cuts (go/ssa)",
+		AllConfigs:  true,
+		Run: func(c *eng.Ctx) {
+			ruleNoPackRemoval(c)
+			ruleRepairIndexOrder(c)
+			ruleRewriteOrder(c)
+			rulePackRemovers(c)
+		},
+		Controls: []Control{
+			{Name: "repair-index-removes-mismatched-packs", File: "internal/repository/repair_index.go",
+				Old: "	// drop outdated in-memory index\n	repo.clearIndex()\n	return nil\n}\n\nfunc rewriteIndexFiles(", New: "	_ = restic.ParallelRemove(ctx, &internalRepository{repo}, removePacks, restic.PackFile, nil, restic.NoopCounter)\n	// drop outdated in-memory index\n	repo.clearIndex()\n	return nil\n}\n\nfunc rewriteIndexFiles(", Rule: "no-pack-removal"},
+			{Name: "index-unreadable-packs-anyway", File: "internal/repository/repository.go",
+				Old: "			} else if err := r.idx.StorePack(wgCtx, fi.ID, entries, &internalRepository{r}); err != nil {\n				return err\n			}", New: "			}\n			if err := r.idx.StorePack(wgCtx, fi.ID, entries, &internalRepository{r}); err != nil {\n				return err\n			}", Rule: "repair-order"},
+			{Name: "rewrite-after-failed-pack-read", File: "internal/repository/repair_index.go",
+				Old: "		bar.Done()\n		if err != nil {\n			return err\n		}\n\n		for _, id := range invalidFiles {", New: "		bar.Done()\n		if err != nil {\n			printer.E(\"%v\", err)\n		}\n\n		for _, id := range invalidFiles {", Rule: "repair-order"},
+		},
+	})
+	register(&Property{
+		ID: "C34",
+		Explanation: "Decides ordering and effects of the repair commands: (salvage-order) RepairPacks removes exactly the user-named packs, only behind the success edges of the re-upload session (WithBlobUploader) and of rewriteIndexFiles, and the index rewrite only after the re-upload succeeded; reuploadBlobsFromPack stores with storeDuplicate=true, returns the save error and compares the uploaded id with the expected blob id; (repair-node-effects) the node rewriter of repair snapshots stores only to Node.Content and Node.Size and only behind node.Type == NodeTypeFile, so files whose data is fully available keep every other field; (replace-order, see C26) the repaired snapshot is saved before the original is removed. Not decided: that every readable blob is actually found in a damaged pack (depends on the damage), and that the repaired snapshots pass check.",
+		Assumptions: commonAssumptions,
+		Technique:   "static analysis: CFG edge-cut ordering + field-store effect enumeration in the rewrite callback (go/ssa)",
+		Run: func(c *eng.Ctx) {
+			ruleSalvageOrder(c)
+			ruleRepairSnapshotsEffects(c)
+			rulePackRemovers(c)
+		},
+		Controls: []Control{
+			{Name: "remove-damaged-packs-before-reupload", File: "internal/repository/repair_pack.go",
+				Old: "	if err != nil {\n		return err\n	}\n	bar.Done()\n\n	// remove salvaged packs from index", New: "	if err != nil {\n		printer.E(\"salvaging failed: %v\", err)\n	}\n	bar.Done()\n\n	// remove salvaged packs from index", Rule: "salvage-order"},
+			{Name: "salvage-skips-known-blobs", File: "internal/repository/repair_pack.go",
+				Old: "uploader.SaveBlob(ctx, blob.Type, buf, restic.ID{}, true)", New: "uploader.SaveBlob(ctx, blob.Type, buf, restic.ID{}, false)", Rule: "salvage-order"},
+			{Name: "repair-rewrites-mtime", File: "cmd/restic/cmd_repair_snapshots.go",
+				Old: "			node.Content = newContent\n			node.Size = newSize\n", New: "			node.Content = newContent\n			node.Size = newSize\n			node.ModTime = node.ChangeTime\n", Rule: "repair-node-effects"},
+		},
+	})
+	register(&Property{
 		ID: "C09",
 		Explanation: "Decides strong necessary conditions that hold for every crash prefix and option combination of prune: (execute-order) in PrunePlan.Execute the repacked packs enter removePacks only through Merge(repackPacks) behind the success edge of WithBlobUploader(CopyBlobs…), removePacks is deleted only on paths that crossed rewriteIndexFiles' success edge, the unsafe-recovery index deletion's success edge, or the zero-length test of ignorePacks taken after ignorePacks ⊇ removePacks was established (the infeasible-path trap of plain dominance), and only after keepBlobs.Len()==0 following a repack; the rewrite excludes exactly ignorePacks; (rewrite-order) MasterIndex.Rewrite removes obsolete index files only after wg.Wait()==nil for the savers, SaveFallback returns the save error; (used-blobs-errors) snapshot/tree load errors and item.Error abort getUsedBlobs/FindUsedBlobs and propagate to PlanPrune; (missing-abort) packInfoFromIndex succeeds only if no used blob is missing from the index and decidePackAction runs only after both succeeded; (ignored-errors-allowlist) the only discarded errors in Execute are the two pack deletions; (pack-removers) all removal call sites of the program are enumerated: PackFile is removed only by Execute and RepairPacks, other sites forward a parameter, no direct backend removal of a pack exists, and compile-fail witnesses show that code outside package repository cannot pass PackFile/IndexFile/KeyFile/LockFile/ConfigFile to Save/RemoveUnpacked. Not decided: correctness of duplicate selection and of the keepBlobs arithmetic; bit-identical restorability itself.",
 		Assumptions: append([]string{"errgroup.Wait returns the first error of its goroutines"}, commonAssumptions...),
